@@ -2,7 +2,6 @@ package slices
 
 import (
 	"fmt"
-	"math"
 	"unsafe"
 
 	"gonum.org/v1/gonum/cmplxs"
@@ -58,13 +57,16 @@ func cdecv[T cnum](c []int64, e int) []T {
 		if c[2*i] == guardCode && c[2*i+1] == guardCode {
 			ee = 0
 		}
-		out[i] = T(complex(math.Ldexp(float64(c[2*i]), ee), math.Ldexp(float64(c[2*i+1]), ee)))
+		out[i] = T(complex(dec[float64](c[2*i], ee), dec[float64](c[2*i+1], ee)))
 	}
 	return out
 }
 
 func csame[T cnum](got T, re, im int64, e int) bool {
-	return complex128(got) == complex128(T(complex(math.Ldexp(float64(re), e), math.Ldexp(float64(im), e))))
+	w := complex128(T(complex(dec[float64](re, e), dec[float64](im, e))))
+	g := complex128(got)
+	eq := func(a, b float64) bool { return a == b || (a != a && b != b) }
+	return eq(real(g), real(w)) && eq(imag(g), imag(w))
 }
 
 func csameVec[T cnum](got []T, want []int64, e int) (int, bool) {
@@ -313,8 +315,8 @@ func runCMisc(r *runner, c *pcase) {
 			bx := cplace(cdecv[complex128](c.X, c.E), off%4)
 			var s float64
 			o = core.Call(func() { s = cmplxs.Norm(bx.view, 2) })
-			if !o.Panicked && !withinBound(s, c.S, c.E, c.Tol, 52, -1074) {
-				bad = fmt.Sprintf("got %v, exact norm is %d*2^%d, outside %d*2^-52 relative bound", s, c.S, c.E, c.Tol)
+			if !o.Panicked {
+				bad = normBad(c, s, c.E, 52, -1074)
 			}
 		}
 		r.count(c, name)
@@ -435,13 +437,11 @@ func runCIncT[T cnum](r *runner, c *pcase, binds []cincBind[T], e, p, tiny int) 
 					bad = fmt.Sprintf("got %v want(spec) (%d%+di)", z, c.S, c.SI)
 				}
 			case "CAsum":
-				if s != float64(c.S) {
+				if !same(s, c.S, 0) {
 					bad = fmt.Sprintf("got %v want(spec) %d", s, c.S)
 				}
 			case "CNrm2":
-				if !withinBound(s, c.S, e, c.Tol, p, tiny) {
-					bad = fmt.Sprintf("got %v, exact norm is %d*2^%d, outside %d*2^-%d relative bound", s, c.S, e, c.Tol, p)
-				}
+				bad = normBad(c, s, e, p, tiny)
 			}
 			if bad == "" {
 				if i, ok := csameVec(bx.view, wx, e); !ok {
